@@ -13,3 +13,79 @@ pub fn set_test_clock(secs: Option<i64>) {
 pub(crate) fn test_clock() -> Option<i64> {
     TEST_CLOCK.with(|c| c.get())
 }
+
+// ---------------------------------------------------------------------------------------------
+// event log (thread pool / epoll traces)
+
+use std::sync::atomic::{AtomicUsize, Ordering};
+use std::sync::Mutex;
+
+/// One observable step of the pool or of the epoll server. Release-type operations (send, unlock,
+/// store-release, close) are logged BEFORE they happen, acquire-type ones (lock acquired, recv/join
+/// returned, load-acquire) AFTER, so that log order respects happens-before.
+#[derive(Debug, Clone, PartialEq, Eq)]
+pub enum Event {
+    // thread pool
+    Send,
+    DropSender,
+    Joined,
+    Returned,
+    Lock(usize),
+    Unlock(usize),
+    Exit(usize),
+    // emitted by the harness's own jobs
+    JobStart(usize, usize), // (job, worker)
+    JobEnd(usize),
+    // epoll server: (connection record address) unless noted
+    EpAccept(u64),
+    EpAddFailed(u64),
+    EpEvent(u64),
+    EpClosedSeen(u64),
+    EpCasOk(u64),
+    EpCasBusy(u64),
+    EpJobStart(u64),
+    EpRearm(u64),
+    EpDel(u64),
+    EpStreamDrop(u64),
+    EpClosedStore(u64),
+    EpFree(u64),
+    EpBatchEnd,
+}
+
+static LOG: Mutex<Vec<Event>> = Mutex::new(Vec::new());
+static NEXT_WORKER: AtomicUsize = AtomicUsize::new(0);
+
+pub fn emit(e: Event) {
+    LOG.lock().unwrap_or_else(|p| p.into_inner()).push(e);
+}
+
+/// Takes the log recorded so far and resets worker numbering.
+pub fn take_log() -> Vec<Event> {
+    NEXT_WORKER.store(0, Ordering::SeqCst);
+    std::mem::take(&mut *LOG.lock().unwrap_or_else(|p| p.into_inner()))
+}
+
+thread_local! {
+    static WORKER_ID: Cell<usize> = const { Cell::new(usize::MAX) };
+}
+
+pub(crate) fn register_worker() -> usize {
+    let id = NEXT_WORKER.fetch_add(1, Ordering::SeqCst);
+    WORKER_ID.with(|c| c.set(id));
+    id
+}
+
+/// The pool worker the calling thread is (usize::MAX when it is not a pool worker).
+pub fn current_worker() -> usize {
+    WORKER_ID.with(|c| c.get())
+}
+
+/// Logs `Unlock(worker)` when dropped: declared after the mutex guard, it is dropped before it.
+pub(crate) struct UnlockLog(pub usize);
+impl Drop for UnlockLog {
+    fn drop(&mut self) {
+        emit(Event::Unlock(self.0));
+    }
+}
+
+pub use crate::threadpool::{verif_run_pool, Task};
